@@ -44,7 +44,7 @@ package localfs
 //@   call HasPrefix#1 assert [match] $0 == pth && $1 == prefix
 
 //@ func (*localFS).KeysPrefix
-//@   requires l != nil && count > 0
+//@   requires l != nil && count > 0 && l.glob != nil
 //@   ensures [page-size] ret2 == nil ==> len(ret0) <= count
 // pagination over the scan: a page is the next `count` entries after the token; the continuation token is
 // the entry right after the page, and there is none exactly when the page reaches the end of the scan
@@ -55,10 +55,15 @@ package localfs
 // cache entry is gone, so the next listing of that prefix sees the store as it is then (the listing ends
 // with the page that reaches the end of the scan, or with an empty page)
 //@   ensures [scan-dropped-when-listing-ends] ret2 == nil && (len(ret0) == 0 || end == len(search)) ==> !has(l.glob, prefix#1)
-// lexicographic order of the returned page: known finding K9 (walk order, never sorted)
+// lexicographic order of the returned page (K9, repaired): a fresh scan is sorted before it is paged, and
+// a cached scan is one that was sorted when it was cached (representation invariant of l.glob)
+//@   requires [cached-scans-are-sorted] forall p string, i int :: has(l.glob, p) && 0 <= i && i + 1 < len(l.glob[p]) ==> !strlt(l.glob[p][i+1], l.glob[p][i])
+//@   ensures [cached-scans-stay-sorted] forall p string, i int :: has(l.glob, p) && 0 <= i && i + 1 < len(l.glob[p]) ==> !strlt(l.glob[p][i+1], l.glob[p][i])
 //@   ensures [sorted] ret2 == nil ==> (forall i int :: 0 <= i && i + 1 < len(ret0) ==> !strlt(ret0[i+1], ret0[i]))
-// the matching prefix must be the one the caller gave (a trailing "/" is significant): known finding K8
-//@   call Walk#1 assert [given-prefix] noRoot ==> prefix#1 == cat("/", prefix)
+// the matching prefix is the one the caller gave, and a trailing "/" is significant (K8, repaired): for a
+// prefix without empty or dot elements the scan matches against "/"+prefix exactly
+//@   call Walk#1 assert [a-trailing-slash-is-kept] hasSuffix(prefix, "/") ==> hasSuffix(prefix#1, "/")
+//@   call Walk#1 assert [given-prefix] noRoot && prefix != "" && !contains(cat("/", prefix), "//") && !contains(cat("/", prefix), "/.") ==> prefix#1 == cat("/", prefix)
 
 // ---- the other object-store operations (C16: "reads return the last written bytes, deletes remove keys")
 // each operates on exactly the key it was given; absence is reported the object-store way: Has says false
